@@ -75,6 +75,15 @@ def recover_from(data, im, g, t0):
     dd = [x for x in dd if 'lost+found' not in x]
     if dd:
         return 'files differ after recovery from the backup in group %d: %s' % (g, dd[:4])
+    # a usable, current backup restores the same geometry: no group's bitmaps or inode table may have been "relocated"
+    ia = Image(after)
+    if ia.groups != im.groups:
+        return 'group count changed from %d to %d after recovery from the backup in group %d' % (im.groups, ia.groups, g)
+    for k in range(im.groups):
+        a, b = im.gd[k], ia.gd[k]
+        if (a.block_bitmap, a.inode_bitmap, a.inode_table) != (b.block_bitmap, b.inode_bitmap, b.inode_table):
+            return 'after recovery from the backup in group %d the metadata of group %d moved: bitmaps/table at %s, originally %s' % (
+                g, k, (b.block_bitmap, b.inode_bitmap, b.inode_table), (a.block_bitmap, a.inode_bitmap, a.inode_table))
     return None
 
 def job(j):
@@ -132,12 +141,13 @@ def main(tier, only=None):
     layouts = [('sparse', ['-t', 'ext4', '-O', '^has_journal,^resize_inode']), ('nosparse', ['-t', 'ext2', '-O', '^sparse_super,^resize_inode']),
                ('ss2_2', ['-t', 'ext4', '-O', '^has_journal,sparse_super2,^resize_inode']), ('ss2_1', ['-t', 'ext4', '-O', '^has_journal,sparse_super2,^resize_inode', '-E', 'num_backup_sb=1']),
                ('ss2_0', ['-t', 'ext4', '-O', '^has_journal,sparse_super2,^resize_inode', '-E', 'num_backup_sb=0']),
-               ('metabg', ['-t', 'ext4', '-O', '^has_journal,meta_bg,^resize_inode']), ('noflex', ['-t', 'ext4', '-O', '^has_journal,^flex_bg,^resize_inode']),
+               ('metabg', ['-t', 'ext4', '-O', '^has_journal,meta_bg,^resize_inode']), ('metabg64', ['-t', 'ext4', '-O', '^has_journal,meta_bg,64bit,metadata_csum,^resize_inode']),
+               ('metabg_ss2', ['-t', 'ext4', '-O', '^has_journal,meta_bg,sparse_super2,^resize_inode']), ('noflex', ['-t', 'ext4', '-O', '^has_journal,^flex_bg,^resize_inode']),
                ('64bit_csum', ['-t', 'ext4', '-O', '^has_journal,64bit,metadata_csum,^resize_inode']), ('resize_inode', ['-t', 'ext4', '-O', '^has_journal,resize_inode'])]
     jobs = []
     for bs, g in ((1024, 256), (2048, 512), (4096, 1024)) if not quick else ((1024, 256),):
         for name, args in layouts:
-            for groups in (range(1, 51) if not quick else list(range(1, 13)) + [24, 25, 26, 27, 28, 49, 50]):
+            for groups in (range(1, 51) if not quick else list(range(1, 13)) + [17, 18, 24, 25, 26, 27, 28, 33, 34, 49, 50]):
                 size = groups * g + (1 if bs == 1024 else 0)
                 steps = []
                 if groups in (3, 8, 26) or not quick and groups % 5 == 0:
@@ -158,9 +168,9 @@ def main(tier, only=None):
         for b in (bad or [])[:3]:
             ck.violation('%s :: %s' % (cid, b[:70]), {'case': cid, 'mke2fs_args': j[1], 'size': j[2], 'what': b})
     ck.add(evaluations=runs, distinct_nontrivial=ok, states=len(jobs), transitions=runs, traces_validated_against_impl=runs,
-           rule='group count (quick: 1..12, 24..28, 49, 50; thorough 1..50) x layout {sparse_super, none, sparse_super2 with 2/1/0 backups, meta_bg, no flex_bg, 64bit+csum, resize_inode} x block size; '
+           rule='group count (quick: 1..12, 17, 18, 24..28, 33, 34, 49, 50; thorough 1..50) x layout {sparse_super, none, sparse_super2 with 2/1/0 backups, meta_bg (32-bit, 64-bit, with sparse_super2), no flex_bg, 64bit+csum, resize_inode} x block size; '
                 'after mke2fs and after each of resize2fs/tune2fs/e2fsck -D transitions: (1) set of groups carrying a superblock copy == set computed from the format rule, copies current (geometry, features, checksum); '
-                '(2) for every such location: primary superblock and descriptors zeroed, e2fsck -fy -b loc -B bs must exit <=1, then e2fsck -fn = 0 and xck.tree equals the original',
+                '(2) for every such location: primary superblock and descriptors zeroed, e2fsck -fy -b loc -B bs must exit <=1, then e2fsck -fn = 0, xck.tree equals the original and every group keeps its bitmap/inode-table locations',
            samples=[jobs[0][0], jobs[len(jobs) // 2][0], jobs[-1][0]])
     ck.cov['skipped'] = skip
     ck.assumptions += ['lost+found differences after recovery are ignored']
